@@ -479,6 +479,29 @@ def r22_for_enumerate(src, item, ed, opts):
             raise LostAnchor(f"for-loop #{sp.get('n')} of {item['path']}")
         ex = src.text(*n["expr"]).strip()
         m = re.fullmatch(r"(.+?)(\[(.+)\.\.\])?\.iter\(\)\s*\.enumerate\(\)", ex, re.S)
+        mskip = re.fullmatch(r"(.+?)\.iter\(\)\s*\.enumerate\(\)\s*\.skip\((.+)\)", ex, re.S)
+        if sp.get("pos") and (m or mskip):
+            # position-normalised form: both spellings of "walk V from element A on" become the SAME index loop
+            # over the absolute position `pos`; the counter the code names is derived from it (`pos - A` for
+            # `V[A..].iter().enumerate()`, `pos` for `V.iter().enumerate().skip(A)`), so invariants written over
+            # `pos` judge either spelling
+            if mskip:
+                v, a, kexpr = mskip.group(1).strip(), mskip.group(2).strip(), "{pos}"
+            else:
+                v, a, kexpr = m.group(1).strip(), (m.group(3) or "0").strip(), "{pos} - " + (m.group(3) or "0").strip()
+            for mm in item["nodes"]:
+                if mm["kind"] == "continue" and inside(mm, n["body"]):
+                    raise Unsupported("R22: loop body contains continue")
+            pat = src.text(*n["pat"]).strip()
+            pm = re.fullmatch(r"\(\s*(\w+)\s*,\s*(.+)\)", pat, re.S)
+            if not pm:
+                raise Unsupported(f"R22 expects a `(k, x)` pattern, found `{pat}`")
+            k, x, pos = pm.group(1), pm.group(2).strip(), sp["pos"]
+            ed.replace(n["range"][0], n["body"][0], f"let mut {pos}: usize = {a}; while {pos} < {v}.len() ", "R22")
+            ed.insert(n["body"][0] + 1, f" let {k}: usize = {kexpr.format(pos=pos)}; let {x} = &{v}[{pos}]; ", "R22", prio=-5)
+            ed.insert(n["body"][1] - 1, f" {pos} += 1; ", "R22", prio=5)
+            ed.count("R22")
+            continue
         if not m:
             raise Unsupported(f"R22 expects `V[A..].iter().enumerate()`, found `{ex}`")
         v = m.group(1).strip()
